@@ -110,6 +110,9 @@ func (e *element) build() *element {
 			k := e.base[i]
 			e.wBacking[i] = osm.WayNode{ID: osm.NodeID(1000 + i), Version: k.Ver, ChangesetID: osm.ChangesetID(k.CS), Lat: k.Lat, Lon: k.Lon}
 		}
+		if c.Ring && c.N >= 2 {
+			e.wBacking[c.N-1].ID = e.wBacking[0].ID // closed way: the first node again
+		}
 		e.wBacking[c.N] = sentinelNode
 		e.way = osm.Way{
 			ID: 7, User: "u", UserID: 9, Visible: true, Version: 3, ChangesetID: 33,
@@ -128,6 +131,10 @@ func (e *element) build() *element {
 		}
 		e.rBacking[i] = osm.Member{Type: typ, Ref: int64(2000 + i), Role: roles[i],
 			Version: k.Ver, ChangesetID: osm.ChangesetID(k.CS), Lat: k.Lat, Lon: k.Lon, Orientation: k.Orient}
+	}
+	if c.Ring && c.N >= 2 {
+		// the same member listed twice
+		e.rBacking[c.N-1].Type, e.rBacking[c.N-1].Ref = e.rBacking[0].Type, e.rBacking[0].Ref
 	}
 	e.rBacking[c.N] = sentinelMember
 	e.rel = osm.Relation{
@@ -205,7 +212,11 @@ func (e *element) snap(s *state) {
 		}
 		for i, nd := range w.Nodes {
 			s.Kids = append(s.Kids, kid{Ver: nd.Version, CS: int64(nd.ChangesetID), Lat: nd.Lat, Lon: nd.Lon})
-			if nd.ID != osm.NodeID(1000+i) {
+			wantID := osm.NodeID(1000 + i)
+			if c.Ring && c.N >= 2 && i == c.N-1 {
+				wantID = 1000
+			}
+			if nd.ID != wantID {
 				s.IdentityOK, s.identityWhy = false, fmt.Sprintf("node %d has id %d", i, nd.ID)
 			}
 		}
@@ -230,7 +241,15 @@ func (e *element) snap(s *state) {
 		if memberKind(c, i) == 0 {
 			typ = osm.TypeNode
 		}
-		if m.Type != typ || m.Ref != int64(2000+i) || m.Role != roles[i] || m.Nodes != nil {
+		wantRef := int64(2000 + i)
+		if c.Ring && c.N >= 2 && i == c.N-1 {
+			wantRef = 2000
+			typ = osm.TypeWay
+			if memberKind(c, 0) == 0 {
+				typ = osm.TypeNode
+			}
+		}
+		if m.Type != typ || m.Ref != wantRef || m.Role != roles[i] || m.Nodes != nil {
 			s.IdentityOK, s.identityWhy = false, fmt.Sprintf("member %d is now %s/%d role %q", i, m.Type, m.Ref, m.Role)
 		}
 	}
@@ -616,6 +635,7 @@ type job struct {
 	base   int
 	length int
 	lo, hi int // list codes [lo,hi)
+	ring   bool
 }
 
 func pow(a, b int) int {
@@ -672,6 +692,7 @@ type bounds struct {
 
 func enumerate(b bounds) []job {
 	var jobs []job
+	ring := false
 	add := func(kind string, n, base, maxLen int) {
 		a := alphabet(kind, n)
 		for l := 0; l <= maxLen; l++ {
@@ -682,7 +703,7 @@ func enumerate(b bounds) []job {
 				if hi > total {
 					hi = total
 				}
-				jobs = append(jobs, job{kind, n, base, l, lo, hi})
+				jobs = append(jobs, job{kind, n, base, l, lo, hi, ring})
 			}
 		}
 	}
@@ -707,6 +728,14 @@ func enumerate(b bounds) []job {
 				add("relation", n, base, b.relAll)
 			}
 		}
+	}
+	// rings: a child referenced twice (closed way, repeated member), fully
+	// annotated, lists one shorter than the deepest bound
+	ring = true
+	for n := 2; n <= 3; n++ {
+		add("way", n, 1<<uint(n)-1, b.wayOther)
+		add("relation", n, 0, b.relCover)                       // all members nodes
+		add("relation", n, pow(3, n)-1-pow(3, n-1), b.relCover) // ways CCW, last one CW... first and last get the same ref
 	}
 	return jobs
 }
@@ -770,7 +799,9 @@ func main() {
 			var st stats
 			el := &element{}
 			for code := j.lo; code < j.hi; code++ {
-				checkCase(r, el, decode(j.kind, j.n, j.base, j.length, code), &st)
+				c := decode(j.kind, j.n, j.base, j.length, code)
+				c.Ring = j.ring
+				checkCase(r, el, c, &st)
 			}
 			st.flush(r)
 		})
